@@ -55,13 +55,16 @@ func init() {
 
 var rdfIRIs = []string{"<ex:p>", "<http://example.org/a>", "<urn:x:1>", "<http://example.org/é>", "<http://example.org/a%20b>",
 	"<http://example.org/" + rdfU + "00e9>", "<mailto:a@b.c>", "<http://example.org/p?q=1#f>", `<http://example.org/\U0001F600>`,
-	"<http://example.org/~a_b-c.d>", "<a:>", "<http://www.w3.org/1999/02/22-rdf-syntax-ns#type>"}
+	"<http://example.org/~a_b-c.d>", "<a:>", "<http://www.w3.org/1999/02/22-rdf-syntax-ns#type>",
+	// UCHAR escapes in the authority, and escapes of characters an IRIREF
+	// cannot hold literally
+	"<http://ex" + rdfU + "00e4mple.org/s>", "<http://example.org/a" + rdfU + "0020b>", "<http://example.org/a" + rdfU + "003eb>"}
 
 // rdfU is the two-character UCHAR introducer (backslash, u).
 const rdfU = "\\" + "u"
 
 var rdfPlainIRIs = []string{"ex:p", "http://example.org/a", "urn:x:1", "http://example.org/é", "http://example.org/a%20b", "mailto:a@b.c",
-	"http://example.org/p?q=1#f", "http://example.org/😀"}
+	"http://example.org/p?q=1#f", "http://example.org/😀", "http://a\u200bb.example/", "http://example.org/a\u200bb"}
 
 var rdfBlankLabels = []string{"b0", "b1", "x", "a.b", "x-y", "0", "_u", "é", "a:b", "b·c", "c14n0", "a", "z", "g", "B_1.2-3", "a_:b"}
 
@@ -236,6 +239,17 @@ func rdfCompare(ref, got []rdfItem, prefixOK bool) string {
 var rdfBadLines = []string{"<a:a> <b:b> .", `<a:a> "lit" <c:c> .`, `_:b <p:p> "x"@ .`, "<rel> <p:p> <o:o> .", `<a:a> <b:b> "unterminated .`,
 	"<a:a> <b:b> <c:c>", `<a:a> <b:b> "\x" .`, `<a:a> <b:b> "\u12" .`, "_:. <b:b> <c:c> .", "<a:a> <b:b> <c:c> <d:d> <e:e> ."}
 
+var rdfOddLines = []string{
+	"<http://example.org/" + rdfU + "0001> <http://example.org/p> _:b .",
+	"<http://example.org/a" + rdfU + "0020b> <http://example.org/p> _:b .",
+	"<http://example.org/a" + rdfU + "003e" + rdfU + "0020" + rdfU + "003cs:b> <http://example.org/p> _:b .",
+	"_:b <http://example.org/p> \"v\"^^<http://example.org/" + rdfU + "007bt" + rdfU + "007d> .",
+	"<http://example.org/" + rdfU + "0025zz> <http://example.org/p> <http://example.org/o> <http://example.org/" + rdfU + "0001> .",
+	"<http://ex" + rdfU + "00e4mple.org/s> <http://example.org/p> \"o\" .",
+	"<http://example.org/" + rdfU + "005c> <http://example.org/p> _:b .",
+	"<http://example.org/" + rdfU + "0022> <http://example.org/p> _:b .",
+}
+
 var rdfHostile = []byte{'"', '\\', '<', '>', '_', ':', '.', ' ', '@', '^', '\n', 0x00, 0x80, 0xFF}
 
 func runNQuads(c *Ctx) *Violation {
@@ -293,6 +307,50 @@ func runNQuads(c *Ctx) *Violation {
 			return v
 		}
 		_ = i
+	}
+	// lines that the grammar accepts and whose terms are unusual: whatever
+	// ParseNQuad decides, nothing downstream of an accepted statement panics,
+	// and everything that prints a statement prints one that parses
+	{
+		line := rdfPick(t, rdfOddLines)
+		if v := c.Guard("ParseNQuad/odd-line", func() string { return line }, func() *Violation {
+			st, err := rdf.ParseNQuad(line)
+			c.Case("control", false, hashString(line), 31)
+			c.Oracle("accepted-statement-is-usable")
+			if err != nil {
+				c.Outcome("odd.rejected")
+				return nil
+			}
+			c.Outcome("odd.accepted")
+			for _, term := range []rdf.Term{st.Subject, st.Predicate, st.Object, st.Label} {
+				if term.Value != "" {
+					term.Parts()
+				}
+			}
+			back, err := rdf.ParseNQuad(st.String())
+			if err != nil || !rdfSame(back, st) {
+				return viol("nquads/ParseNQuad/accepted-unstable", "ParseNQuad(%q) = %v, but its String() %q parses to %v, %v", line, rdfShow(st), st.String(), rdfShow(back), err)
+			}
+			for i, f := range []func(dst, src []*rdf.Statement) ([]*rdf.Statement, error){rdf.URDNA2015, rdf.URGNA2012} {
+				name := []string{"URDNA2015", "URGNA2012"}[i]
+				out, err := f(nil, []*rdf.Statement{st})
+				if err != nil {
+					continue
+				}
+				for _, o := range out {
+					if _, err := rdf.ParseNQuad(o.String()); err != nil {
+						return viol("rdf-c14n/"+name+"/output-does-not-parse", "%s of the accepted statement %q prints %q, which does not parse: %v", name, line, o.String(), err)
+					}
+				}
+				again, err := f(nil, out)
+				if err != nil || len(again) != len(out) || (len(out) == 1 && again[0].String() != out[0].String()) {
+					return viol("rdf-c14n/"+name+"/not-idempotent", "%s of its own output for %q differs: %v then %v (%v)", name, line, out, again, err)
+				}
+			}
+			return nil
+		}); v != nil {
+			return v
+		}
 	}
 	// constructors on labels and language tags that may be malformed: an error,
 	// or a term that survives printing and parsing ("decoders are total" for the
@@ -512,7 +570,9 @@ func runNQuads(c *Ctx) *Violation {
 	// "Reset resets the decoder to use the provided io.Reader, retaining the
 	// existing Term ID mapping": a term seen before keeps its UID, a new term
 	// gets one no other term has, and Terms() agrees with the statements
-	if v := c.Guard("Decoder/reset", func() string { return fmt.Sprintf("%q, Reset, then the same lines in reverse order with two new statements", doc) }, func() *Violation {
+	if v := c.Guard("Decoder/reset", func() string {
+		return fmt.Sprintf("%q, Reset, then the same lines in reverse order with two new statements", doc)
+	}, func() *Violation {
 		dec := rdf.NewDecoder(&simio.Reader{Data: doc, Plan: simio.NoFaults(), Ch: tc})
 		first, _ := rdfDrain(dec, maxCalls)
 		var second []byte
